@@ -7,7 +7,7 @@ specification side, computed from the structure alone), `render(s, lay)` writes 
 
 Besides queries and DML the grammar has the statements that CARRY a query or an expression without being queries
 (CREATE [OR REPLACE] VIEW, CREATE MATERIALIZED VIEW, CREATE [UNIQUE] INDEX ... WHERE, CREATE TABLE with DEFAULT /
-CHECK): the names they define or designate as plain strings (view / index / table name, view column list, index
+CHECK, EXPLAIN / DESCRIBE query): the names they define or designate as plain strings (view / index / table name, view column list, index
 keys and indexed table, column definitions, constraint key lists) are NOT items; the names inside the carried query /
 expressions are.  `flat_chain` builds the long flat operator chains (a OR b OR c ...: left-deep trees, one level per
 operand, no nesting in the text).
@@ -214,13 +214,15 @@ class Gen:
         r = (r - 0.4) / 0.6
         if r >= 0.62:
             r = (r - 0.62) / 0.38
-            if r < 0.4:
+            if r < 0.32:
                 return self.create_view(sq)
-            if r < 0.6:
+            if r < 0.5:
                 return self.create_matview(sq)
-            if r < 0.8:
+            if r < 0.68:
                 return self.create_index(sq)
-            return self.create_table(sq)
+            if r < 0.86:
+                return self.create_table(sq)
+            return ("explain", self.pick(["EXPLAIN", "EXPLAIN", "DESCRIBE"]), self.query(sq, top=False))
         r = r / 0.62
         if r < 0.5:
             return self.query(sq)
@@ -360,6 +362,8 @@ def items_stmt(s, acc):
                     acc.append(("C", "", col))
                 for v in w[3]:
                     items_expr(v, acc)
+    elif k == "explain":
+        items_stmt(s[2], acc)
     elif k in ("createview", "creatematview"):
         items_stmt(s[4], acc)               # the view name is defined, its column list names the view's columns
     elif k == "createindex":
@@ -553,6 +557,8 @@ def rstmt(s, L=PLAIN):
             else:
                 parts.append(L.kw("DELETE"))
         return L.join(parts)
+    if k == "explain":
+        return L.join([L.kw(s[1]), rstmt(s[2], L)])
     if k == "createview":
         pre, ifne, post = s[1]
         return L.join([L.kw("CREATE"), L.kw(pre), L.kw("VIEW"), L.kw("IF NOT EXISTS") if ifne else "",
@@ -715,6 +721,8 @@ def coq_stmt(s):
     if k in ("createview", "creatematview"):
         return "(%s %s [%s] %s)" % ("MCreateView" if k == "createview" else "MCreateMView", ctn(s[2]),
                                     "; ".join(cs(c) for c in s[3]), coq_stmt(s[4]))
+    if k == "explain":
+        return "(MExplain %s)" % coq_stmt(s[2])
     if k == "createindex":
         return "(MCreateIndex %s %s [%s] %s)" % (ctn(s[2]), ctn(s[3]), "; ".join(cname(c) for c, _ in s[4]), copt(s[5]))
     if k == "createtable":
